@@ -59,6 +59,11 @@ pub fn main(args: &[String]) {
     mods.push(("kotlin".into(), false, opa(vec![Method { name: "ma".into(), self_param: this(), params: vec![("f".into(), Ty::Fn(vec![Ty::Prim(Prim::U8)], Box::new(Ty::Unit)))], ret: None }])));
     mods.push(("js".into(), false, opa(vec![Method { name: "ma".into(), self_param: this(), params: vec![], ret: Some(Ty::Res(Box::new(Ty::Prim(Prim::U8)), Box::new(Ty::Prim(Prim::I8)), Sd::Std)) }])));
     mods.push(("dart".into(), false, opa(vec![Method { name: "ma".into(), self_param: this(), params: vec![("p".into(), Ty::PSlice(Some((Lt::Anon, false)), Prim::Byte, Sd::Std))], ret: None }])));
+    // F9: a `'static` lifetime *argument* of a returned opaque / struct type (not gated by any support flag)
+    for t in ["js", "dart"] {
+        mods.push((t.into(), false, opa(vec![])));
+        extra.push(Some(("static-lifetime-argument".into(), "    #[diplomat::opaque]\n    pub struct XtHolder<'x>(&'x u8);\n    #[diplomat::opaque]\n    pub struct XtSrc;\n    impl XtSrc {\n        pub fn hold<'a>(&'a self) -> Box<XtHolder<'static>> { unimplemented!() }\n    }\n".into())));
+    }
     for i in 0..n {
         let target = BACKENDS[i % BACKENDS.len()];
         let unsafe_refs = i % 5 == 0;
